@@ -4,14 +4,21 @@ unit tests pass with it, its demonstration fails with it and passes without it. 
 /verif/seeded/<Cxx><v>/ with meta.json.   usage: confirm_seed.py C04 A"""
 import json, os, re, shutil, subprocess, sys, glob
 prop, var = sys.argv[1], sys.argv[2]
-src = '/tmp/seedout/%s/%s' % (prop, var)
-wt = '/tmp/cw/%s%s' % (prop, var)
+srcroot = '/tmp/seedout'
+store_var = var
+for a in sys.argv[3:]:
+    if a.startswith('--src='):
+        srcroot = a[6:]
+    if a.startswith('--as='):
+        store_var = a[5:]
+src = '%s/%s/%s' % (srcroot, prop, var)
+wt = '/tmp/cw/%s%s' % (prop, store_var)
 def sh(c, cwd=None, timeout=3000):
     r = subprocess.run(c, shell=True, cwd=cwd, stdout=subprocess.PIPE, stderr=subprocess.STDOUT, text=True, timeout=timeout)
     return r.returncode, r.stdout
 res = {'property': prop, 'variant': var}
 patch = src + '/patch.diff'
-alt = '/verif/seeded/%s%s/patch.diff' % (prop, var)
+alt = '/verif/seeded/%s%s/patch.diff' % (prop, store_var)
 if os.path.exists(alt) and '--use-stored' in sys.argv:
     patch = alt
 sh('git -C /repo worktree remove --force %s' % wt)
@@ -66,7 +73,7 @@ try:
     res['demo_cmd'] = demo_cmd
     ok = res['suite_with_change'].startswith('41 passed') and 'FAILURES' not in res['suite_with_change'] and rc1 != 0 and rc2 == 0
     res['confirmed'] = ok
-    out = '/verif/seeded/%s%s' % (prop, var)
+    out = '/verif/seeded/%s%s' % (prop, store_var)
     os.makedirs(out, exist_ok=True)
     open(out + '/patch.diff', 'w', newline='').write(diff if mode == '3way' else open(patch, newline='').read())
     if os.path.exists(src + '/demo_test.rs'):
@@ -75,7 +82,7 @@ try:
         shutil.copy(src + '/demo.diff', out + '/demo.diff')
     if os.path.exists(src + '/notes.md'):
         shutil.copy(src + '/notes.md', out + '/notes.md')
-    meta = {'property': prop, 'variant': var, 'breaks': None, 'needs_to_manifest': None, 'demo_location': demo_path,
+    meta = {'property': prop, 'variant': store_var, 'wave': 2 if srcroot.endswith('2') else 1, 'breaks': None, 'needs_to_manifest': None, 'demo_location': demo_path,
             'confirmed_on': sh('git -C /repo log --format=%h -n1')[1].strip(), 'confirmation': res}
     json.dump(meta, open(out + '/meta.json', 'w'), indent=1)
     print(json.dumps(res))
